@@ -6,14 +6,15 @@ Model of the *occupancy* side of mesa's cell spaces (properties C06, C18-cells; 
 `remove_agent`, `is_empty`, `is_full`, `agents`), `discrete_space.py` (`empties`, `agents`,
 `select_random_empty_cell`), `grid.py` (`Grid.select_random_empty_cell`, the `empty` property
 layer), `cell_collection.py` (`select_random_cell`).  The model follows the code after the
-repairs S11 (`HasCell.cell`), S12 (`FixedCell.cell`), S13 (`Grid2DMovingAgent.move`), SC3 (`Cell.add_agent`: capacity 0).
+repairs S11 (`HasCell.cell`), S12 (`FixedCell.cell`), S13 (`Grid2DMovingAgent.move`), SC3 (`Cell.add_agent`: capacity 0),
+SC4 (`HasCell.cell`: re-entering the own cell asks no capacity).
 
 ## State (explicit, for C19)
 
 * `Space` — what no agent operation changes:
   `cells` (keys of `space._cells`, in dict order), `conn c` (`Cell.connections` of cell `c`: key ↦ cell,
   in dict order; edited only by `Cell.connect` / `Cell.disconnect`, see `connectSp` / `disconnectSp` and the
-  histories `DOp`), `cap c` (`Cell.capacity`), `isGrid` (a `Grid`: it has the `empty` property layer and
+  histories `DOp`), `cap c` (`Cell.capacity`; rewritten only by the program's `cell.capacity = k`, see `setCapSp`), `isGrid` (a `Grid`: it has the `empty` property layer and
   the try-random search strategy), `coordKey c` (`cell.coordinate` used as a dict key — the default key of
   `Cell.connect`; `none` if it is unhashable).
 * `State` — what operations change:
@@ -155,7 +156,7 @@ def removeAgent (s : State) (c : Cid) (a : Aid) : Option State :=
   else none
 
 /-- `HasCell.cell` setter (S11-repaired order: enter the new cell, leave the old one, re-point;
-    re-entering the current cell leaves first) -/
+    re-entering the current cell leaves first and comes back without a capacity test, repair SC4) -/
 def setCellMobile (sp : Space) (s : State) (a : Aid) (tgt : Option Cid) : State × Res :=
   let old := s.cellOf a
   -- enter the new cell first
@@ -171,13 +172,12 @@ def setCellMobile (sp : Space) (s : State) (a : Aid) (tgt : Option Cid) : State 
     | none => (s1, .err .value)
     | some s2 =>
       let s3 := { s2 with cellOf := upd s2.cellOf a tgt }
-      -- re-entering the current cell
+      -- re-entering the current cell: back to the end of its list; the capacity is not asked again (repair SC4: the
+      -- agent was an occupant already — a capacity lowered under the occupancy must not turn it away after it has left)
       match tgt with
       | some c =>
         if tgt = old then
-          match addAgent sp s3 c a with
-          | (s4, true) => (s4, .ok)
-          | (s4, false) => (s4, .err .full)
+          ({ s3 with flag := upd s3.flag c (some false), occ := upd s3.occ c (s3.occ c ++ [a]) }, .ok)
         else (s3, .ok)
       | none => (s3, .ok)
 
@@ -332,11 +332,16 @@ def connectSp (sp : Space) (c c2 : Cid) (key : Key) : Space := { sp with conn :=
 /-- `space[c].disconnect(space[c2])` -/
 def disconnectSp (sp : Space) (c c2 : Cid) : Space := { sp with conn := disconnectConn sp.conn c c2 }
 
-/-- an operation of a history that may edit connections between the agent operations -/
+/-- `space[c].capacity = k`: a plain attribute write on cell `c`.  Nothing else happens: the occupants stay (also when
+    there are more than `k` of them); `add_agent` / `is_full` read the new value from then on -/
+def setCapSp (sp : Space) (c : Cid) (k : Option Nat) : Space := { sp with cap := upd sp.cap c k }
+
+/-- an operation of a history that may edit connections / capacities between the agent operations -/
 inductive DOp where
   | op (o : Op)
   | connect (c c2 : Cid) (key : Option Key)    -- `space[c].connect(space[c2], key)`; `none`: the default key
   | disconnect (c c2 : Cid)                    -- `space[c].disconnect(space[c2])`
+  | setCap (c : Cid) (k : Option Nat)          -- `space[c].capacity = k` (an int, 0 included, or None) by hand
 deriving Repr, DecidableEq
 
 /-- the edit a `connect` / `disconnect` line makes, or the exception it raises (`space[…]` of a coordinate that
@@ -351,6 +356,8 @@ def editSp (sp : Space) : DOp → Space × Res
     else (sp, .err .key)
   | .disconnect c c2 =>
     if c ∈ sp.cells ∧ c2 ∈ sp.cells then (disconnectSp sp c c2, .ok) else (sp, .err .key)
+  | .setCap c k =>
+    if c ∈ sp.cells then (setCapSp sp c k, .ok) else (sp, .err .key)
 
 def dstep (sp : Space) (s : State) : DOp → (Space × State) × Res
   | .op o => ((sp, (step sp s o).1), (step sp s o).2)
